@@ -59,6 +59,19 @@ void pbt_property(Ctx &c) {
         }
         for (auto &v : refl) for (auto &st : v) pool.stds.push_back(st);
         for (auto &st : others) pool.stds.push_back(st);
+        // "(plus unknown standard parameters)": one or two single reflects whose reflection is an UNKNOWN parameter
+        // (guess within 10 %).  Every unknown parameter in a prefix raises the number of equations needed by one;
+        // prefixes that contain one are only judged by the too-few clause (the converse clause speaks of known standards).
+        for (int p = 0; p < std::min(d, 2); p++) {
+            C truth = rnd_disk(a, 0.4L, 0.95L);
+            Standard st = g.single(p, truth); st.entry = Standard::SINGLE;
+            UParam u; u.truth.assign(1, truth); u.guess.assign(1, truth * (C(1, 0) + rnd_disk(a, 0, 0.1L)));
+            SCell &cell = st.cells[0]; cell.kind = SCell::SCALAR; cell.v = u.truth; cell.uparam = (int)sc.uparams.size(); cell.handle = -1;
+            sc.uparams.push_back(u);
+            g.finish(st);
+            pool.stds.push_back(st);
+        }
+        pool.uparams = sc.uparams;
         for (auto &st : pool.stds) if (c.exhaustive) { st.abbrev_rows = st.abbrev_cols = false; }
     }
     size_t npool = pool.stds.size();
@@ -88,14 +101,19 @@ void pbt_property(Ctx &c) {
         // classify the prefix
         auto eq = count_equations(sc, n);
         bool too_few = false; for (int e : eq) if (e < U) too_few = true;
+        // unknown standard parameters used so far: the total number of equations must reach error terms + parameters
+        std::vector<int> used; for (auto &st : prefix.stds) for (auto &cell : st.cells) if (cell.uparam >= 0 && std::find(used.begin(), used.end(), cell.uparam) == used.end()) used.push_back(cell.uparam);
+        int np = (int)used.size(), total = 0; for (int e : eq) total += e;
+        bool with_unknown = np > 0;
+        if (with_unknown) { too_few = total < (int)eq.size() * U + np; c.label(too_few ? "prefix:too-few(with unknown parameters)" : "prefix:gray(with unknown parameters)"); }
         bool determining = false; long double kappa = 0;
-        if (!too_few) { vm::Ident id = ident_at(prefix, 0); determining = id.determining && leakage_uncovered(prefix).empty(); kappa = id.kappa; }
+        if (!too_few && !with_unknown) { vm::Ident id = ident_at(prefix, 0); determining = id.determining && leakage_uncovered(prefix).empty(); kappa = id.kappa; }
         run.log.clear(); errno = 0;
         int rc = vnacal_new_solve(run.vnp); int err = errno;
         c.note("   after %zu standards: equations min %d / unknowns %d -> %s; solve rc=%d", n, *std::min_element(eq.begin(), eq.end()), U, too_few ? "too-few" : determining ? "determining" : "gray", rc);
         if (too_few) {
             c.label("prefix:too-few");
-            PBT_CHECK(c, rc == -1, "C20.too_few_accepted", "solve succeeded with %d equations for %d unknown error terms after %zu standards", *std::min_element(eq.begin(), eq.end()), U, n);
+            PBT_CHECK(c, rc == -1, "C20.too_few_accepted", "solve succeeded with %d equations (minimum per system; %d in total) for %d unknown error terms per system and %d unknown standard parameters after %zu standards", *std::min_element(eq.begin(), eq.end()), total, U, np, n);
             PBT_CHECK(c, err == EDOM, "C20.too_few_errno", "solve with too few standards failed with errno %d (%s), expected EDOM; callbacks: %s", err, strerror(err), run.log.text().c_str());
             PBT_CHECK(c, run.log.n_nonwarning() >= 1 && run.log.last()->category == VNAERR_MATH, "C20.too_few_callback", "no MATH error callback: %s", run.log.text().c_str());
             had_fail = true;
